@@ -18,6 +18,9 @@ def cap_variants(b, k):
 
 def run(chk):
     q = chk.quick
+    # (B1) System end to end on the exact field model, random-oracle challenges (MC_Protocol: Completeness, RoleSync, FSBinding,
+    # RejectsInvalid, MegaIdentity), with non-vacuity probes
+    vlib.protocol_mc(chk)
     # (B1) the statement semantics the expectations rest on: DeviationIffUnsatisfied etc. on every rich program
     depth = 3 if q else 4
     behs = vlib.generate_behaviours(chk, depth, rich=True, name="rich")
